@@ -167,11 +167,31 @@ func (t *SymbolTable) Verify() error {
 	return errs.ErrorOrNil()
 }
 
+// orderedTerminals returns the terminals in the order they were added to the symbol table.
+// The symbol table itself iterates in no particular order, which must not leak into the diagnostics.
+func (t *SymbolTable) orderedTerminals() []grammar.Terminal {
+	all := make([]grammar.Terminal, 0, t.terminals.table.Size())
+	indices := make(map[grammar.Terminal]int, t.terminals.table.Size())
+
+	for a, e := range t.terminals.table.All() {
+		all = append(all, a)
+		indices[a] = e.index
+	}
+
+	sort.Quick(all, func(lhs, rhs grammar.Terminal) int {
+		return indices[lhs] - indices[rhs]
+	})
+
+	return all
+}
+
 // ensureSingleDefs ensures every terminal has one and only one definition.
 func (t *SymbolTable) ensureSingleDefs() error {
 	var errs error
 
-	for a, e := range t.terminals.table.All() {
+	for _, a := range t.orderedTerminals() {
+		e, _ := t.terminals.table.Get(a)
+
 		if count := len(e.definitions); count == 0 {
 			errs = errors.Append(errs, fmt.Errorf("no definition for terminal %s", a))
 		} else if count > 1 {
@@ -193,14 +213,23 @@ func (t *SymbolTable) ensureDistinctDefs() error {
 	var errs error
 
 	reverse := make(map[string][]*TerminalDef)
-	for _, e := range t.terminals.table.All() {
+	values := []string{} // in the order the values were first seen
+	for _, a := range t.orderedTerminals() {
+		e, _ := t.terminals.table.Get(a)
+
 		if len(e.definitions) == 1 {
 			def := e.definitions[0]
+			if _, ok := reverse[def.Value]; !ok {
+				values = append(values, def.Value)
+			}
+
 			reverse[def.Value] = append(reverse[def.Value], def)
 		}
 	}
 
-	for val, defs := range reverse {
+	for _, val := range values {
+		defs := reverse[val]
+
 		if len(defs) > 1 {
 			poses := generic.Transform(defs, func(def *TerminalDef) string {
 				return fmt.Sprintf("  %s: %s", def.Pos, def.Terminal)
